@@ -1,6 +1,6 @@
 (** Lemmas for property C14 (GridSpec tiles the plane). *)
 From Coq Require Import ZArith QArith Qround Qabs Qpower List Bool Lia Lqa FinFun.
-From OG Require Import Base.Result Base.QZ Base.QMinMax Model.GridSpec.
+From OG Require Import Base.Result Base.QZ Base.QMinMax Base.ZRange Model.GridSpec.
 Import ListNotations.
 Open Scope Q_scope.
 
@@ -148,29 +148,6 @@ Lemma range_iff_narrow b a c i : bin_ok b -> c <= a ->
    fst (bin_getitem b i) <= a /\ c < snd (bin_getitem b i)).
 Proof.
   intros Hb Hca. rewrite Z.min_comm, Z.max_comm. apply range_iff; assumption.
-Qed.
-
-(** ** zrange / tiles membership *)
-Lemma zrange_In a b i : In i (zrange a b) <-> (a <= i < b)%Z.
-Proof.
-  unfold zrange. rewrite in_map_iff. split.
-  - intros (k & <- & Hk). apply in_seq in Hk. lia.
-  - intros H. exists (Z.to_nat (i - a)). split; [lia|]. apply in_seq. lia.
-Qed.
-
-Lemma zrange_NoDup a b : NoDup (zrange a b).
-Proof.
-  unfold zrange. apply Injective_map_NoDup; [|apply seq_NoDup].
-  intros x y H. lia.
-Qed.
-
-Lemma product_In (xs ys : list Z) ix iy :
-  In (ix, iy) (flat_map (fun iy => map (fun ix => (ix, iy)) xs) ys) <-> In ix xs /\ In iy ys.
-Proof.
-  rewrite in_flat_map. split.
-  - intros (y & Hy & H). apply in_map_iff in H. destruct H as (x & E & Hx).
-    inversion E; subst. auto.
-  - intros [Hx Hy]. exists iy. split; [exact Hy|]. apply in_map_iff. exists ix. auto.
 Qed.
 
 (** ** GridSpec *)
@@ -347,15 +324,6 @@ Proof.
   intros (Hx & Hy & _). unfold tiles. rewrite idx_bounds_spec.
   rewrite product_In, !zrange_In.
   rewrite (axis_hit_iff _ tol x1 x2 ix Hx), (axis_hit_iff _ tol y1 y2 iy Hy). reflexivity.
-Qed.
-
-Lemma NoDup_app_intro {A} (l1 l2 : list A) :
-  NoDup l1 -> NoDup l2 -> (forall x, In x l1 -> In x l2 -> False) -> NoDup (l1 ++ l2).
-Proof.
-  induction l1 as [|a l1 IH]; simpl; intros H1 H2 H; [exact H2|].
-  inversion H1 as [|? ? Ha Hl]; subst. constructor.
-  - rewrite in_app_iff. intros [C|C]; [contradiction | eapply H; eauto].
-  - apply IH; auto. intros x Hx1 Hx2. eapply H; eauto.
 Qed.
 
 Lemma tiles_NoDup g tol bnd : NoDup (tiles g tol bnd).
